@@ -20,8 +20,11 @@ flags = {
     'san': '-O1 -g1 -D_GLIBCXX_ASSERTIONS -fno-omit-frame-pointer -fsanitize=address,undefined,float-cast-overflow '
            '-fno-sanitize-recover=undefined,float-cast-overflow',
     'tsan': '-O1 -g1 -fno-omit-frame-pointer -fsanitize=thread',
+    # 'sch': as rel, and every std::atomic of the library / tools goes through the GWB_VERIF yield hook (mc/atomic_hook.h is force-included)
+    'sch': '-O2 -g1',
 }[variant]
-ldflags = {'rel': '', 'san': '-fsanitize=address,undefined', 'tsan': '-fsanitize=thread'}[variant]
+ldflags = {'rel': '', 'san': '-fsanitize=address,undefined', 'tsan': '-fsanitize=thread', 'sch': ''}[variant]
+libextra = f' -include {V}/mc/atomic_hook.h' if variant == 'sch' else ''
 
 cxx = 'ccache g++' if os.path.exists('/usr/bin/ccache') else 'g++'
 L = []
@@ -29,7 +32,7 @@ L.append(f'cxx = {cxx}')
 L.append(f'cxxflags = {common} {flags}')
 L.append(f'chkflags = {common.replace("-std=c++14", "-std=c++17")} {flags} -I{V}/mc -I{stage}/source -Wall -Wno-unused-function')
 L.append(f'ldflags = {ldflags} -lz -lpthread')
-L.append('rule cc\n  command = $cxx $cxxflags -MMD -MF $out.d -c $in -o $out\n  depfile = $out.d\n  deps = gcc\n  description = CC $out')
+L.append(f'rule cc\n  command = $cxx $cxxflags{libextra} -MMD -MF $out.d -c $in -o $out\n  depfile = $out.d\n  deps = gcc\n  description = CC $out')
 L.append('rule chk\n  command = $cxx $chkflags $extra -MMD -MF $out.d -c $in -o $out\n  depfile = $out.d\n  deps = gcc\n  description = CHK $out')
 L.append('rule ar\n  command = rm -f $out && ar crs $out $in\n  description = AR $out')
 L.append('rule link\n  command = g++ -o $out $objs -Wl,--whole-archive libwb.a -Wl,--no-whole-archive $ldflags\n  description = LINK $out')
